@@ -48,9 +48,9 @@ def run_harness(args, timeout=600):
 
 
 def harness_for(ob):
-    """contracts/harness.json maps an obligation prefix (function) to a harness name"""
+    """contracts/harness.json "replay" maps an obligation prefix (function) to a harness"""
     best = None
-    for k, v in HARNESS.items():
+    for k, v in HARNESS.get('replay', {}).items():
         if ob.startswith(k) and (best is None or len(k) > len(best[0])):
             best = (k, v)
     return best[1] if best else None
@@ -68,8 +68,11 @@ def make_replay(prop, ob, entries, work, tier, seed, known_match):
           'rerun': './check %s --replay %s' % (prop, path),
           'failing_input': None}
     h = harness_for(ob)
-    if h is not None:
-        out, err = run_harness(['search', h, '--tier', tier, '--seed', str(seed)])
+    if h is not None and os.environ.get('VERIF_REPO', '/repo') == '/repo':
+        args = ['search', h['harness'], '--tier', tier, '--seed', str(seed)]
+        if h.get('only'):
+            args += ['--only', h['only']]
+        out, err = run_harness(args)
         rp['harness'] = h
         if out is None:
             rp['harness_error'] = err
@@ -83,7 +86,8 @@ def make_replay(prop, ob, entries, work, tier, seed, known_match):
                 fails = outside or fails
             if fails:
                 rp['failing_input'] = fails[0]
-                rp['replay_cmd'] = '%s replay %s %s' % (os.path.join(ROOT, '.build/release/pv-replay'), h, json.dumps(fails[0].get('input')))
+                rp['replay_cmd'] = '%s replay %s "%s %s"' % (os.path.join(ROOT, '.build/release/pv-replay'), h['harness'],
+                                                           fails[0].get('fn'), fails[0].get('input'))
     elif known_match is not None:
         rp['outside_known_class'] = False
     json.dump(rp, open(path, 'w'), indent=1)
@@ -91,24 +95,87 @@ def make_replay(prop, ob, entries, work, tier, seed, known_match):
 
 
 def bounded_fallback(prop, undecided, work, tier, seed, open_known):
-    hs = sorted({v for k, v in HARNESS.items() if prop in v.get('properties', [])}, key=str) if False else []
+    """the verifier could not decide: a concrete failing input from the bounded harness is still a
+    violation (it is real by construction)"""
+    if os.environ.get('VERIF_REPO', '/repo') != '/repo':
+        return None
+    for spec in HARNESS.get('bounded', {}).get(prop, []):
+        out, err = run_harness(['search', spec['harness'], '--tier', tier, '--seed', str(seed)])
+        if out and out.get('failures'):
+            f = out['failures'][0]
+            d = os.path.join(work, 'replay')
+            os.makedirs(d, exist_ok=True)
+            path = os.path.join(d, 'bounded_' + _safe(spec['harness'] + '_' + f.get('fn', '')) + '.json')
+            rp = {'property': prop, 'obligation': 'bounded:%s:%s' % (spec['harness'], f.get('fn')), 'path': path,
+                  'verifier_output': [{'message': 'verifier undecided: ' + '; '.join('%s %s' % (u[1], u[2][:200]) for u in undecided)}],
+                  'failing_input': f, 'harness': spec}
+            json.dump(rp, open(path, 'w'), indent=1)
+            return rp
     return None
 
 
 def bounded_leaves(prop, work, tier, seed, open_known):
-    leaves = [(k, v) for k, v in HARNESS.items() if isinstance(v, dict) and v.get('leaf') and prop in v.get('properties', [])]
-    if not leaves:
-        return {}
-    return {}
+    """bounded stand-in: runs the real code of the leaf functions (whose contracts the proofs assume)
+    and, as a cross-check of the specification text, of the proved functions, against an independent
+    executable model.  Labelled bounded; never added to obligations/discharged."""
+    specs = HARNESS.get('bounded', {}).get(prop, [])
+    if not specs or os.environ.get('VERIF_REPO', '/repo') != '/repo':
+        return {'report': [{'note': 'bounded harness not run (VERIF_REPO override)'}]} if specs else {}
+    res = {'report': [], 'violations': [], 'known_lines': [], 'evaluations': 0, 'distinct_nontrivial': 0, 'rule': ''}
+    for spec in specs:
+        out, err = run_harness(['search', spec['harness'], '--tier', tier, '--seed', str(seed)])
+        if out is None:
+            res['report'].append({'harness': spec['harness'], 'error': err})
+            res['violations'].append({'obligation': 'bounded:%s' % spec['harness'], 'path': _write(work, 'bounded_' + spec['harness'], {'error': err}),
+                                      'failing_input': None, 'harness_error': err}) if 'does not build' in (err or '') and False else None
+            continue
+        res['evaluations'] += out.get('cases', 0)
+        res['distinct_nontrivial'] += out.get('distinct_nontrivial', 0)
+        res['rule'] = out.get('bound', '')
+        for fn, n in sorted(out.get('per_fn', {}).items()):
+            res['report'].append({'function': fn, 'role': 'leaf (assumed contract): ' + spec['leaves'][fn] if fn in spec.get('leaves', {}) else 'cross-check of a proved function',
+                                  'bound': out.get('bound'), 'cases': n, 'failures': out.get('fail_counts', {}).get(fn, 0)})
+        by_fn = {}
+        for f in out.get('failures', []):
+            by_fn.setdefault(f.get('fn'), []).append(f)
+        for fn, fs in by_fn.items():
+            ob = 'bounded:%s:%s' % (spec['harness'], fn)
+            km = None
+            for k in open_known:
+                if k.get('obligation') == ob:
+                    km = k
+            outside = [f for f in fs if km is None or f.get('class') != km.get('class')]
+            if km is not None and not outside:
+                res['known_lines'].append('KNOWN-FINDING: property=%s %s [%s]' % (prop, km.get('what', ob), ob))
+                continue
+            f = outside[0]
+            path = _write(work, 'bounded_' + spec['harness'] + '_' + fn, {'property': prop, 'obligation': ob, 'failing_input': f,
+                          'replay_cmd': '%s replay %s "%s %s"' % (os.path.join(ROOT, '.build/release/pv-replay'), spec['harness'], fn, f.get('input')),
+                          'harness': spec['harness']})
+            res['violations'].append({'obligation': ob, 'path': path, 'failing_input': f})
+    res['violations'] = [v for v in res['violations'] if v]
+    return res
+
+
+def _write(work, name, obj):
+    d = os.path.join(work, 'replay')
+    os.makedirs(d, exist_ok=True)
+    path = os.path.join(d, _safe(name) + '.json')
+    obj['path'] = path
+    json.dump(obj, open(path, 'w'), indent=1)
+    return path
 
 
 def do_replay(prop, path):
     rp = json.load(open(path))
     print('replaying obligation %s' % rp['obligation'])
-    if rp.get('failing_input') and rp.get('harness'):
-        out, err = run_harness(['replay', rp['harness'], json.dumps(rp['failing_input'].get('input'))])
+    fi = rp.get('failing_input')
+    h = rp.get('harness')
+    hname = h['harness'] if isinstance(h, dict) else h
+    if fi and hname:
+        out, err = run_harness(['replay', hname, '%s %s' % (fi.get('fn'), fi.get('input'))])
         print(json.dumps(out) if out else err)
-        if out and out.get('fails'):
+        if out and out.get('failures'):
             print('VIOLATION property=%s replay=%s' % (prop, path))
             return 1
         return 0
